@@ -61,7 +61,7 @@ MonotoneOn(i) ==
        tv == Div(Neg(b), Mul(Two, a))
    IN IF s = 0 THEN c[2] = R(0) /\ c[3] = R(0) /\ c[4] = R(0)
       ELSE /\ Le(R(0), g) /\ Le(R(0), AtT(h[i]))
-           /\ (Sgn(a) > 0 /\ Lt(R(0), tv) /\ Lt(tv, h[i])) => Le(R(0), AtT(tv))
+           /\ (Sgn(a) > 0 /\ Lt(R(0), tv) /\ Lt(tv, h[i])) => Le(R(0), Sub(g, Div(Mul(b, b), Mul(R(4), a))))   \* value at the vertex
 Monotone == Ready => \A i \in 1..(N-1) : MonotoneOn(i)
 \* (4) stays between the two end values on each interval (sampled at quarters; implied by (3), stated on its own)
 Between(v, a, b) == Le(RMin(a, b), v) /\ Le(v, RMax(a, b))
